@@ -89,6 +89,7 @@ func checkC10(c *Ctx) {
 		c10Creation(c, p, m)
 		childNameDecision(c, p, "R10.9")
 		optionsOnOwnLogger(c, p, "R10.10")
+		lookupHitIsPure(c, p, "R10.4")
 		c10Navigation(c, p, m)
 		freshChildren(c, p, m, "R10.4", nil)
 		optionsInOrder(c, p, "R10.3")
